@@ -6,6 +6,7 @@ import IrefVerif.Lemmas.ResolveEmpty
 import IrefVerif.Lemmas.ResolveAuth
 import IrefVerif.Lemmas.ResolveRel
 import IrefVerif.Lemmas.ResolveRelNoAuth
+import IrefVerif.Lemmas.ResolveRelBase
 import IrefVerif.Lemmas.ResolveTotal
 import IrefVerif.Lemmas.ResolveComponents
 import IrefVerif.Lemmas.ResolveRendering
@@ -51,9 +52,17 @@ complete there.
 * the same against a base *without* authority whose path is absolute, outside F15 and wherever
   the RFC target path does not begin with `//` (`resolve_relative_noauthority`; there the code
   writes the shield `/.` and the RFC text would be read as an authority).
-PARTIAL: the relative-path merge against a base without authority whose path is relative or empty
-(where the RFC text itself can turn a relative path into an absolute one), and the inputs
-excluded by `needsShield` / the `//` condition, are judged on the implementation only.
+* the same against a base without authority whose path is *relative or empty*, outside F15 and
+  wherever the RFC target path is relative (`resolve_relative_relbase`; Errata 4547: the `..`s that
+  cannot be resolved stay in front — `Lemmas/SymRel.lean`, `Lemmas/RelBaseSegs.lean`,
+  `Lemmas/ResolveRelBase.lean`; where the target's first segment is empty the RFC text would be an
+  absolute path and the code writes the shield `./`).  Proving this branch exposed F19.
+So every branch of §5.2.2 is covered for every base (`resolve_relative_no_authority_base` collects
+the two cases of a base without authority).
+PARTIAL: the inputs on which the RFC text itself is ambiguous — excluded by `needsShield`, the `//`
+condition and "the target path is relative" — are covered by `resolve_components`,
+`resolve_*_rendering` (the shielded rendering) and judged on the implementation; the F15 class is
+an open finding.
 -/
 
 namespace IrefVerif.Props.C06
@@ -168,6 +177,46 @@ theorem resolve_relative_noauthority (G : Grammar) (ok : Grammar.Ok G) (okp : Gr
 example : Findings.f15 [0x73,0x3A,0x2F,0x61,0x2F,0x62] [0x2E,0x2E,0x2F,0x63] = false ∧
     Lemmas.startsSS (resolveSpec [0x73,0x3A,0x2F,0x61,0x2F,0x62] [0x2E,0x2E,0x2F,0x63]).path = false := by decide
 
+/-- **§5.2.2, fifth branch, base without authority and with a relative or empty path** (Errata 4547:
+the `..`s that cannot be resolved stay in front), outside the F15 class and where the RFC target path
+is relative -/
+theorem resolve_relative_relbase (G : Grammar) (ok : Grammar.Ok G) (okp : Grammar.OkPath G) (base r : Text)
+    (hb : RE.Matches G.full base) (hr : RE.Matches G.reference r)
+    (hs : (split r).scheme = none) (ha : (split r).authority = none)
+    (hne : (split r).path ≠ []) (hrl : isAbs (split r).path = false)
+    (hab : (split base).authority = none) (hBrel : isAbs (split base).path = false)
+    (hf : Findings.f15 base r = false) (hamb : isAbs (resolveSpec base r).path = false) :
+    Model.Ref.resolve r base = some (recompose (resolveSpec base r)) :=
+  Lemmas.resolve_relative_relbase G ok okp base r hb hr hs ha hne hrl hab hBrel
+    (Lemmas.noSkip_of_not_f15_relbase base r hBrel hs ha hne hrl hab hf) hamb
+
+/-- non-vacuity: `s:a/b` and `../../c` meet the hypotheses (the target is `s:../c`), so do `s:` and
+`a/b`; the witness of F19, `s:.//x` and `../..`, does too, and the model of the repaired code
+answers `s:../` -/
+example : Findings.f15 [0x73,0x3A,0x61,0x2F,0x62] [0x2E,0x2E,0x2F,0x2E,0x2E,0x2F,0x63] = false ∧
+    isAbs (resolveSpec [0x73,0x3A,0x61,0x2F,0x62] [0x2E,0x2E,0x2F,0x2E,0x2E,0x2F,0x63]).path = false ∧
+    recompose (resolveSpec [0x73,0x3A,0x61,0x2F,0x62] [0x2E,0x2E,0x2F,0x2E,0x2E,0x2F,0x63]) = [0x73,0x3A,0x2E,0x2E,0x2F,0x63] ∧
+    Findings.f15 [0x73,0x3A] [0x61,0x2F,0x62] = false ∧ isAbs (resolveSpec [0x73,0x3A] [0x61,0x2F,0x62]).path = false ∧
+    Findings.f15 [0x73,0x3A,0x2E,0x2F,0x2F,0x78] [0x2E,0x2E,0x2F,0x2E,0x2E] = false ∧
+    isAbs (resolveSpec [0x73,0x3A,0x2E,0x2F,0x2F,0x78] [0x2E,0x2E,0x2F,0x2E,0x2E]).path = false ∧
+    Model.Ref.resolve [0x2E,0x2E,0x2F,0x2E,0x2E] [0x73,0x3A,0x2E,0x2F,0x2F,0x78] = some [0x73,0x3A,0x2E,0x2E,0x2F] := by decide
+
+/-- **every relative-path reference against a base without authority**: outside the F15 class, and
+where the RFC target path neither begins with `//` nor turns a relative base path into an absolute
+path, the model of `resolve` is RFC 3986 §5.2 with Errata 4547 -/
+theorem resolve_relative_no_authority_base (G : Grammar) (ok : Grammar.Ok G) (okp : Grammar.OkPath G) (base r : Text)
+    (hb : RE.Matches G.full base) (hr : RE.Matches G.reference r)
+    (hs : (split r).scheme = none) (ha : (split r).authority = none)
+    (hne : (split r).path ≠ []) (hrl : isAbs (split r).path = false)
+    (hab : (split base).authority = none) (hf : Findings.f15 base r = false)
+    (hss : Lemmas.startsSS (resolveSpec base r).path = false)
+    (hrel : isAbs (split base).path = false → isAbs (resolveSpec base r).path = false) :
+    Model.Ref.resolve r base = some (recompose (resolveSpec base r)) := by
+  by_cases hB : isAbs (split base).path = true
+  · exact resolve_relative_noauthority G ok okp base r hb hr hs ha hne hrl hab hB hf hss
+  · have hB' : isAbs (split base).path = false := by simpa using hB
+    exact resolve_relative_relbase G ok okp base r hb hr hs ha hne hrl hab hB' hf (hrel hB')
+
 /-- **every relative reference against a base with an authority**: outside the F15 class the model
 of `resolve` is RFC 3986 §5.2 -/
 theorem resolve_relative_reference (G : Grammar) (ok : Grammar.Ok G) (okp : Grammar.OkPath G) (base r ab : Text)
@@ -198,6 +247,30 @@ theorem iri_resolve_relative_reference (base r ab : Text) (hb8 : ∀ c ∈ base,
     Model.Ref.resolve r base = some (recompose (resolveSpec base r)) :=
   resolve_relative_reference iriGB iriGB_ok iriGB_okPath base r ab (Valid.iri_octets base hb8 hb)
     (Valid.iriRef_octets r hr8 hr) hs hab hf
+
+/-- end to end, URI family: an accepted `Uri` base without authority, an accepted relative-path `UriRef` -/
+theorem uri_resolve_relative_no_authority_base (base r : Text) (hb8 : ∀ c ∈ base, c < 256) (hr8 : ∀ c ∈ r, c < 256)
+    (hb : accepts .uri base = true) (hr : accepts .uriRef r = true)
+    (hs : (split r).scheme = none) (ha : (split r).authority = none)
+    (hne : (split r).path ≠ []) (hrl : isAbs (split r).path = false)
+    (hab : (split base).authority = none) (hf : Findings.f15 base r = false)
+    (hss : Lemmas.startsSS (resolveSpec base r).path = false)
+    (hrel : isAbs (split base).path = false → isAbs (resolveSpec base r).path = false) :
+    Model.Ref.resolve r base = some (recompose (resolveSpec base r)) :=
+  resolve_relative_no_authority_base uriG uriG_ok uriG_okPath base r (Valid.uri_octets base hb8 hb)
+    (Valid.uriRef_octets r hr8 hr) hs ha hne hrl hab hf hss hrel
+
+/-- … IRI family (octets) -/
+theorem iri_resolve_relative_no_authority_base (base r : Text) (hb8 : ∀ c ∈ base, c < 256) (hr8 : ∀ c ∈ r, c < 256)
+    (hb : accepts .iri base = true) (hr : accepts .iriRef r = true)
+    (hs : (split r).scheme = none) (ha : (split r).authority = none)
+    (hne : (split r).path ≠ []) (hrl : isAbs (split r).path = false)
+    (hab : (split base).authority = none) (hf : Findings.f15 base r = false)
+    (hss : Lemmas.startsSS (resolveSpec base r).path = false)
+    (hrel : isAbs (split base).path = false → isAbs (resolveSpec base r).path = false) :
+    Model.Ref.resolve r base = some (recompose (resolveSpec base r)) :=
+  resolve_relative_no_authority_base iriGB iriGB_ok iriGB_okPath base r (Valid.iri_octets base hb8 hb)
+    (Valid.iriRef_octets r hr8 hr) hs ha hne hrl hab hf hss hrel
 
 /-- **totality and validity, every branch, no side condition**: for every valid base and every
 valid reference the model of `resolve` never panics and returns a valid *full* URI/IRI (the base
